@@ -29,6 +29,7 @@ def _inc(target: str, opts: dict | None = None, colon=False) -> str:
 
 HAZARDS = [
     "missing_include", "dir_include", "undecodable_include", "nul_bytes_include", "empty_include", "self_include",
+    "self_include",
     "cycle2", "cycle3", "deep_chain", "long_name_include", "bad_encoding", "nested_in_directive", "include_twice",
     "long_link", "dir_link", "odd_links", "literal_include_binary", "include_md_doc", "discarded_body",
     "discarded_body", "discarded_body", "long_line", "outside_srcdir_include", "relative_docs_include", "relative_docs_include",
@@ -67,12 +68,22 @@ def apply(r, proj: dict, front_end: str, n: int) -> list[str]:
             _append(files, doc, _inc(rel("inc/empty.inc"), r.choice([None, {"start-after": "x"}, {"end-line": "0"}])))
         elif h == "self_include":
             base = doc.rsplit("/", 1)[-1]
-            _append(files, doc, _inc(base, r.choice([None, {"start-line": "1"}, {"heading-offset": "1"}])))
+            # ... also spelled through '.' and '..' segments (the cycle guard must compare normalised paths)
+            parts = doc.split("/")
+            if len(parts) == 1:  # root-level document: go through directories that exist in every project
+                dotted = ["files/../" + base, "sub/../" + base, "./files/.././" + base]
+            else:  # leave the document's own directory and come back
+                dotted = ["../" + parts[-2] + "/" + base, "./../" + parts[-2] + "/./" + base]
+            spelled = r.choice([base, "./" + base] + dotted + dotted)
+            _append(files, doc, _inc(spelled, r.choice([None, {"start-line": "1"}, {"heading-offset": "1"}])))
         elif h in ("cycle2", "cycle3"):
             n_c = 2 if h == "cycle2" else 3
             names = [f"inc/cyc{n_c}_{i}.inc" for i in range(n_c)]
+            dotted = r.random() < 0.5
             for i, nm in enumerate(names):
                 nxt = names[(i + 1) % n_c].rsplit("/", 1)[-1]
+                if dotted:
+                    nxt = r.choice(["./", "../inc/", "../files/../inc/"]) + nxt
                 files[nm] = f"cycle member {i}\n\n" + _inc(nxt) + "\n"
             _append(files, doc, _inc(rel(names[0])))
         elif h == "deep_chain":
